@@ -76,6 +76,16 @@ fn text_variants(src: &str) -> Vec<(String, String)> {
         v[i] = format!("{} #- inline -#", lines[i]);
         out.push((format!("eol-inline-comment@{i}"), join(&v)));
     }
+    // an inline comment between the indentation and the code of a line, with awkward bodies
+    for i in 0..lines.len() {
+        let ind = " ".repeat(indent_of(lines[i]));
+        let code = lines[i].trim_start();
+        for (k, body) in ["note", "see the #- marker", "a # b", "-", "#", "- # -", "é -", "'quote", "x -# #- y"].iter().enumerate() {
+            let mut v: Vec<String> = lines.iter().map(|l| l.to_string()).collect();
+            v[i] = format!("{ind}#- {body} -# {code}");
+            out.push((format!("inline-comment-before-code-{k}@{i}"), join(&v)));
+        }
+    }
     // everything everywhere
     let mut all = String::from("# header\n\n");
     for l in &lines {
@@ -286,6 +296,17 @@ fn check_program(t: &mut Tally, prog: &[X], with_text_variants: bool) {
             continue;
         }
         let prefix = lines[..=k].join("\n") + "\n";
+        // the same prefix without the final line break (what a REPL hands over)
+        {
+            let bare = lines[..=k].join("\n");
+            t.count("line-prefixes");
+            if let Ok(r) = compile_outcome(&bare) {
+                let is_ind = r == Some(true);
+                if (e == Expect::Indentation) != is_ind {
+                    t.fail("line-prefixes", if e == Expect::Indentation { "header-cut-not-an-indentation-error" } else { "complete-statement-cut-is-an-indentation-error" }, format!("after {:?} without a final line break", lines[k].trim()), format!("cut after line {k} (no trailing newline): {:?}\nresult: {r:?}\n--- full program ---\n{base_src}--- program ---\n{bare}", lines[k]));
+                }
+            }
+        }
         t.count("line-prefixes");
         match compile_outcome(&prefix) {
             Err(p) => t.fail("line-prefixes", "compiler-panic", p, format!("--- program ---\n{prefix}")),
@@ -327,6 +348,42 @@ fn chain_programs() -> Vec<Vec<X>> {
         callf("size", vec![m(m(id("data"), "iter", vec![]), "to_tuple", vec![])]),
         m(m(m(id("data"), "iter", vec![]), "zip", vec![m(id("data"), "iter", vec![])]), "to_list", vec![]),
     ];
+    // pipes as operands / elements (the piped-into function optionally in redundant parentheses)
+    {
+        let defs = || {
+            vec![
+                assign("f", func_inline(&["v"], bin(Op::Add, id("v"), int(1)))),
+                assign("g", func_inline(&["v"], bin(Op::Mul, id("v"), int(10)))),
+                assign("mm", map(vec![("g", id("g"))])),
+            ]
+        };
+        let pipe = |a: X, f: X| x(E::Pipe(a, f));
+        let exprs: Vec<X> = vec![
+            bin(Op::Add, pipe(int(1), id("f")), pipe(int(2), id("g"))),
+            bin(Op::Add, pipe(int(1), id("f")), pipe(int(2), access(id("mm"), "g"))),
+            bin(Op::Sub, pipe(int(1), access(id("mm"), "g")), pipe(int(2), id("f"))),
+            list(vec![pipe(int(1), id("f")), pipe(int(2), id("g")), pipe(int(3), access(id("mm"), "g"))]),
+            tuple(vec![pipe(pipe(int(1), id("f")), id("g")), pipe(int(2), id("f"))]),
+            callf("size", vec![list(vec![pipe(int(1), id("f"))])]),
+        ];
+        for e in exprs {
+            let mut p = defs();
+            p.push(assign("r", e.clone()));
+            p.push(print(id("r")));
+            out.push(p);
+            let mut p = defs();
+            p.push(assign("h", func(&[], vec![assign("r", e.clone()), tuple(vec![id("r"), e.clone()])])));
+            p.push(print(callf("h", vec![])));
+            out.push(p);
+        }
+    }
+    // a statement that starts with a minus sign after a statement that is continued over lines
+    for op in [Op::Add, Op::Sub, Op::Mul] {
+        for next in [int(-1), x(E::Neg(id("a")))] {
+            out.push(vec![assign("a", int(4)), assign("f", func(&[], vec![assign("xx", bin(op, int(1), int(2))), next.clone()])), print(callf("f", vec![]))]);
+            out.push(vec![assign("a", int(4)), assign("f", func(&[], vec![assign("xx", bin(op, id("a"), callf("size", vec![list(vec![int(1)])]))), next.clone()])), print(callf("f", vec![]))]);
+        }
+    }
     for c in &chains {
         out.push(vec![data(), assign("d", c.clone()), print(id("d"))]);
         out.push(vec![data(), assign("f", func(&[], vec![assign("d", c.clone()), ret(Some(c.clone()))])), print(callf("f", vec![]))]);
@@ -359,8 +416,8 @@ fn operator_cut_family(t: &mut Tally) {
                 Ok(r) => t.fail("operator-ended-lines", "operator-cut-not-an-indentation-error", format!("{l:?} in context {c:?}: {}", if r.is_none() { "compiles" } else { "another error" }), format!("result: {r:?}\n--- program ---\n{src}")),
             }
             // with trailing whitespace / a comment after the operator
-            for tail in ["   ", " # c"] {
-                let src = format!("{c}{l}{tail}\n");
+            for tail in ["   \n", " # c\n", "", " ", " #- c -#"] {
+                let src = format!("{c}{l}{tail}");
                 t.count("operator-ended-lines");
                 if let Ok(r) = compile_outcome(&src)
                     && r != Some(true)
